@@ -41,6 +41,8 @@ type JobOpts struct {
 	// EagerDeliver: events are delivered as soon as the catch events they address listen
 	EagerDeliver bool `json:"eager_deliver"`
 	EagerAnswer  bool `json:"eager_answer"`
+	// ConcurrentStart: every start event is triggered by its own StartWith call, all at once
+	ConcurrentStart bool `json:"concurrent_start"`
 	// Instant: the scripted steps are ignored, every request is answered the moment it appears
 	Instant bool `json:"instant"`
 }
@@ -86,6 +88,7 @@ func (o JobOpts) driveOptsFor(run int) drive.Options {
 	d.EagerDeliver = o.EagerDeliver
 	d.EagerAnswer = o.EagerAnswer
 	d.Instant = o.Instant
+	d.ConcurrentStart = o.ConcurrentStart
 	switch {
 	case o.LingerMs > 0:
 		d.Linger = time.Duration(o.LingerMs) * time.Millisecond
